@@ -79,6 +79,28 @@ class FArr(_np.ndarray):
         return base.copy().view(FArr)
 
 
+class IArr(_np.ndarray):
+    """Object array standing for an int64 array that receives symbolic values:
+    assignment truncates toward zero like the C cast does."""
+
+    def __setitem__(self, key, value):
+        ctx = _ctx()
+
+        def tr(v):
+            if isinstance(v, Sym):
+                return ctx.trunc(v)
+            if isinstance(v, (float, _np.floating)):
+                return Sym.const(int(v))
+            return v
+        if isinstance(value, _np.ndarray):
+            value = _np.array([tr(v) for v in value.reshape(-1)], dtype=object).reshape(value.shape)
+        elif isinstance(value, (list, tuple)):
+            value = _np.array([tr(v) for v in value], dtype=object)
+        else:
+            value = tr(value)
+        _np.ndarray.__setitem__(self, key, value)
+
+
 def sym_full(shape, c):
     A = _np.empty(shape, dtype=object)
     s = Sym.const(c)
@@ -181,6 +203,14 @@ def _empty(shape, dtype=None, order='C', **kw):
 
 
 def _full(shape, fill_value, dtype=None, **kw):
+    if dtype is None and isinstance(fill_value, (int, _np.integer, bool, _np.bool_)):
+        # NumPy takes the dtype from the fill value: an integer array (kept as an
+        # object array that truncates what is assigned to it)
+        if isinstance(fill_value, (bool, _np.bool_)):
+            return _np.full(shape, fill_value)
+        A = _np.empty(shape, dtype=object)
+        A.fill(Sym.const(int(fill_value)))
+        return A.view(IArr)
     dtype = _fix_dtype(dtype)
     if isinstance(fill_value, Sym) or _is_float_dtype(dtype):
         A = _np.empty(shape, dtype=object)
@@ -226,22 +256,23 @@ def _array(obj, dtype=None, copy=True, order='K', subok=False, ndmin=0, **kw):
 def _from_object(A, dtype, copy):
     if dtype is not None and not _is_float_dtype(dtype) and _np.dtype(dtype).kind in 'iu':
         # integer request: native if every entry is a constant integer
+        # (the memory order of the source is kept, as astype / asarray do)
         try:
-            vals = []
-            for x in A.reshape(-1):
+            out = _np.empty_like(A, dtype=dtype)
+            for idx in _np.ndindex(A.shape):
+                x = A[idx]
                 if isinstance(x, Sym):
                     c = x.const_value()
                     if c is None:
                         raise ValueError
-                    vals.append(int(c))     # truncation like astype(int)
+                    out[idx] = int(c)       # truncation like astype(int)
                 else:
-                    vals.append(int(x))
-            return _np.array(vals, dtype=dtype).reshape(A.shape)
+                    out[idx] = int(x)
+            return out
         except ValueError:
-            out = _np.empty(A.shape, dtype=object)
-            fo = out.reshape(-1)
-            for i, x in enumerate(A.reshape(-1)):
-                fo[i] = SymInt(x)
+            out = _np.empty_like(A, dtype=object)
+            for idx in _np.ndindex(A.shape):
+                out[idx] = SymInt(A[idx])
             return out
     if dtype is not None and _np.dtype(dtype).kind == 'b':
         return _np.array([bool(x) for x in A.reshape(-1)], dtype=bool).reshape(A.shape)
